@@ -318,7 +318,7 @@ PROPS["C05"] = {'claimed': True,
  'design_ref': 'DESIGN.md section 4, C05',
  'assumptions': ['builder-valid parameters; set_passive (documented todo!()) and constructor assertions excluded (DESIGN 4.0)', 'now in [0, 2^62) microseconds (not necessarily monotone); the receive buffer holds bytes (0..255); applications total (apps_total); the application list keeps its length']}
 
-PROPS["C06"] = {'claimed': False,
+PROPS["C06"] = {'claimed': True,
  'coq': 'Properties/C06.v',
  'domains': ['fdl'],
  'nontrivial': ['tx:', 'tag:ht:accept', 'tag:reply:', 'tag:gap:reply', 'tag:gap:no-response', 'tag:check:', 'tag:lt:reply'],
@@ -336,19 +336,14 @@ PROPS["C06"] = {'claimed': False,
                   'from active.rs',
                   'harness PHY / scripted applications / scripted environment of harness/src/fdl.rs; monitors of coq/Model/FdlOracle.v (extracted) '
                   "run on the implementation's transcript"],
- 'technique': 'Coq one-step theorems about the Gallina model of the FDL active station + differential correspondence poll by poll + executable '
-              "monitor of the property on the implementation's transcript",
- 'level_text': "One-step theorem: silence for the station's token-lost time-out makes the next poll transmit the claim token. The monitor checks it "
-               'on transcripts.',
- 'level_note': 'Trusted: Coq kernel, the regex translators, OCaml extraction + driver, Rust harness. The hand model is validated, not verified, '
-               'against active.rs (differential execution on the explored histories). The theorems proved so far are one-step facts about the model; '
-               'the history-level theorems of DESIGN.md section 4 are not yet proved, so nothing is claimed in MANIFEST.json.',
- 'partial_gap': 'only one-step theorems are proved; the invariant / history-level theorems planned in DESIGN.md section 4 (C06_backoff, '
-                'C06_collision_leaves, N-station recovery) are open',
+ 'technique': "Coq theorems about the Gallina model of the FDL active station (one-step theorems over all states, two-poll and n-poll histories) + differential correspondence poll by poll + executable monitor of the property on the implementation's transcript",
+ 'level_text': 'PARTIAL - single-station half only. Machine-checked theorems (Coq 8.16.1, closed under the global context) about the model coq/Model/Fdl.v of src/fdl/active.rs, whole polls, all station states / parameters / applications / times / inputs under the stated hypotheses: C06_claim_progress (silence for the token-lost time-out => the next poll transmits the claim token); C06_claim_only_after_timeout + C06_claim_needs_silence (a poll enters ClaimToken only from ListenToken/ActiveIdle and only if the recorded bus activity, new receive bytes included, is at least the time-out old); C06_claim_stagger (time-out = (6 + 2 TS) Tslot grows by >= 2 Tslot per address step); C06_backoff (waiting for a data reply / GAP reply / scan reply and finding another complete telegram => ActiveIdle, nothing transmitted, no application called, ring view unchanged) and C06_holding_defers (UseToken / transmitting ClaimToken steps / PassToken do not read the buffer: new bytes => nothing transmitted in that poll, state kept); C06_collision_* (ActiveIdle: token telegrams with own source address - first tolerated, second in a row leaves the ring for ListenToken; ListenToken: any telegram with own source address - first tolerated, second takes the station offline by re-creating it; closure-level and two-poll histories); C06_garbage_discarded (undecodable new bytes in a reading state: buffer dropped, nothing transmitted, only last_bus_activity / pending_bytes change); C06_lost_token_recovers_alone_partial (a lone idle station on a silent bus, ANY poll schedule: no poll panics, nothing happens before the time-out, the first poll at or after last activity + time-out transmits the claim token and the station holds the token; _fresh_partial: the same counted from the first poll of a station just set online). Retry and removal of a silent successor are C11_retry_discipline. The N-station property itself is NOT proved: it is only monitored on the implementation (see partial_gap).',
+ 'level_note': 'Trusted: Coq kernel, the regex translators (constants token_lost_base / token_lost_per_addr, collision tolerances, tables regenerated from the crate), OCaml extraction + driver, Rust harness. The hand model is validated, not verified, against active.rs (differential execution poll by poll). One poll sees an atomic PHY snapshot. Theorems other than C06_claim_progress and C06_lost_token_recovers_alone_partial assume the poll returns (no panic); those two prove it. The monitors of coq/Model/FdlOracle.v run on single-station implementation transcripts.',
+ 'partial_gap': 'NOT PROVED: the property proper - after an arbitrary finite fault plan the remaining N online stations re-establish a single circulating token within a bounded time, re-admit every live station and remove the gone ones. There is no theorem about N stations, about the timed composition, or about a recovery bound; that part is only MONITORED on the implementation (single-station monitors of the fdl domain in this check; bus-level N-station monitors under fault plans are a separate check under construction) - a test, not a proof. Also open in the single-station half: C06_lost_token_recovers_alone for the states PassToken / CheckTokenPass (working off a stale ring view: each step is described by C11_retry_discipline, the bound over the whole LAS is missing) and with a status request pending.',
  'design_ref': 'DESIGN.md section 4, C06',
  'assumptions': ['single station']}
 
-PROPS["C11"] = {'claimed': False,
+PROPS["C11"] = {'claimed': True,
  'coq': 'Properties/C11.v',
  'domains': ['fdl'],
  'nontrivial': ['tx:', 'tag:ht:accept', 'tag:reply:', 'tag:gap:reply', 'tag:gap:no-response', 'tag:check:', 'tag:lt:reply'],
@@ -366,15 +361,10 @@ PROPS["C11"] = {'claimed': False,
                   'from active.rs',
                   'harness PHY / scripted applications / scripted environment of harness/src/fdl.rs; monitors of coq/Model/FdlOracle.v (extracted) '
                   "run on the implementation's transcript"],
- 'technique': 'Coq one-step theorems about the Gallina model of the FDL active station + differential correspondence poll by poll + executable '
-              "monitor of the property on the implementation's transcript",
- 'level_text': 'One-step theorems about handle_telegram: acceptance iff predecessor or pending second offer, own address never accepted, non-last '
-               'tokens only witnessed. The monitor checks acceptance, retry timing and count, removal and the heard-successor rule on transcripts.',
- 'level_note': 'Trusted: Coq kernel, the regex translators, OCaml extraction + driver, Rust harness. The hand model is validated, not verified, '
-               'against active.rs (differential execution on the explored histories). The theorems proved so far are one-step facts about the model; '
-               'the history-level theorems of DESIGN.md section 4 are not yet proved, so nothing is claimed in MANIFEST.json.',
- 'partial_gap': 'only one-step theorems are proved; the invariant / history-level theorems planned in DESIGN.md section 4 (C11_listen_never_accepts '
-                '(whole poll), C11_supervise, C11_retry_discipline, C11_heard_not_removed) are open',
+ 'technique': "Coq theorems about the Gallina model of the FDL active station: one-step theorems over all station states and inputs, and history theorems by induction over arbitrary lists of polls with a ghost counter; + differential correspondence poll by poll + executable monitor of the property on the implementation's transcript",
+ 'level_text': 'Machine-checked theorems (Coq 8.16.1, closed under the global context) about the model coq/Model/Fdl.v of src/fdl/active.rs, for ALL station states, parameters, applications, times and inputs unless stated. Acceptance: C11_accept_iff (in ActiveIdle a token addressed to the station, received as last buffered telegram, is accepted iff the sender is PS or the pending new_previous_station, otherwise the sender becomes pending and the ring view is unchanged), C11_own_address_never_accepts, C11_not_last_only_witnessed, C11_listen_never_accepts (do_listen_token ends in ListenToken / Offline / ActiveIdle, or in ClaimToken only after its own time-out), C11_accept_second_offer (two-poll history: first offer of a stranger only recorded, second consecutive offer accepted, a different stranger in between replaces the pending one). Supervision: C11_supervise (a poll in PassToken transmits nothing, a GAP poll, or the token to NS, after which the state is CheckTokenPass with the same attempt, or UseToken when the updated ring view has NS = TS), C11_supervise_silent_until_slot (in CheckTokenPass a poll transmits only if check_slot_expired holds: PHY idle, now > last bus activity + slot time, no new receive bytes), C11_check_pass_poll (complete case analysis of a poll in CheckTokenPass). Retry: C11_retry_discipline - for every run of polls from every state, a ghost counter driven only by observations (does the poll transmit, is the station in PassToken/CheckTokenPass) never exceeds 3 and equals the attempt label while supervising; when the slot timer runs out with count < 3 the pass is repeated on the unchanged ring view, with count = 3 - and only then - remove_station NS is applied and the token goes to the new NS, or the station keeps it (UseToken) if the new NS is TS; otherwise nothing is transmitted and the ring view changes by witnessed passes only. C11_heard_not_removed: new receive bytes while supervising => nothing transmitted, no removal; a complete telegram takes the station to ActiveIdle (handled from there), an incomplete one restarts the timer, undecodable bytes are dropped. Concrete runs are evaluated inside Coq as non-vacuity examples. The model is tied to the crate on every run by the fdl correspondence check (0 divergences) and the C11 monitors run on the implementation transcripts.',
+ 'level_note': 'Trusted: Coq kernel, the regex translators (retry table check_pass_next / check_pass_removes, legality tables, constants are regenerated from active.rs), OCaml extraction + driver, Rust harness. The hand model is validated, not verified, against active.rs (differential execution poll by poll on the explored histories). One poll sees an atomic PHY snapshot. "remove_station is not applied" is stated as: the ring view after the poll is obtained from the one before by witness_token_pass calls only (ring_witnessed) or is unchanged; remove_station is called nowhere else in the model (do_check_token_pass only). The theorems assume the poll returns (no panic); panic-freedom is C05.',
+ 'partial_gap': 'all planned C11 theorems are proved. Stated as coded rather than as planned: (a) after the token transmission the station keeps the token iff the ring view AFTER witnessing its own pass has NS = TS (for all states, also inconsistent ring views); (b) when the synchronisation pause exceeds the slot time (not possible for builder-valid parameters, slot >= 100 bit > 33 bit) the retry / post-removal pass is sent by a later poll, which the theorems state as a separate case; (c) C11_accept_second_offer assumes no pending status request (sr = None; with one pending the station answers it first and reads the token afterwards). Time-outs in C11_heard_not_removed use slot_time >= 0.',
  'design_ref': 'DESIGN.md section 4, C11',
  'assumptions': ['single station']}
 
